@@ -11,7 +11,7 @@ RULE = ("parameter sets = switch vector x magnitudes: every on/off combination o
         "|t|<=1000 um, wavelength 0.1-1.5 A; 24 peaks per set anywhere on a 4096^2 detector incl. the pixel "
         "nearest the beam centre, omega in [-720,720], one set in 16 with integer-typed sc/fc/omega arrays; oracle = geometry written in the harness from the "
         "documentation, compared with transform.py (Python), Ctransform / raw C kernels, columnfile fast and "
-        "slow routes, numba point_by_point copy, get_local_gv, PixelLUT; non-trivial = >=3 switches on, or omegasign=-1, "
+        "slow routes (fresh objects and update / edit-parameters / update histories on one object), numba point_by_point copy, get_local_gv, PixelLUT; non-trivial = >=3 switches on, or omegasign=-1, "
         "or an off-diagonal flip, or (chi!=0 and t!=0); distinct = switch index x magnitude seed")
 ASSUMPTIONS = ["tolerances: lab coordinates 1e-12*distance; g and k 1e-11/wavelength absolute (the C route forms "
                "cos(2theta)-1 and loses relative accuracy near the direct beam); tth 1e-9 deg; eta compared as "
@@ -254,6 +254,34 @@ def check(case, rec=None):
                 c.fails.append(exc_failure(route, e))
             else:
                 c.g(route, np.array([cf2.gx, cf2.gy, cf2.gz]).T)
+    # ---- (iii-b) history on one columnfile: update, edit the parameters in place, update again
+    #      (another parameter set from the lattice is used first, so every column exists and is stale)
+    pA, _, _, _ = params_from((index * 7 + 13) % 16384, mseed + 1)
+    for fast in (True, False):
+        for style in ("inplace+translation", "inplace", "setparameters"):
+            cf = columnfile.colfile_from_dict({"sc": sc.copy(), "fc": fc.copy(), "omega": om.copy()})
+            route = "columnfile history (fast=%s, %s)" % (fast, style)
+            ok, e = guard(cf.updateGeometry, parameters.parameters(**pA), None, not fast)
+            if not ok:
+                c.fails.append(exc_failure(route, e))
+                continue
+            if style == "setparameters":
+                ok, e = guard(cf.setparameters, parameters.parameters(**pk))
+                tr = None
+            else:
+                for k_, v_ in pk.items():
+                    cf.parameters.set(k_, v_)
+                tr = list(t) if style == "inplace+translation" else None
+                if tr is not None:
+                    cf.parameters.set("t_x", 5.0)          # must be ignored when a translation is passed
+            ok, e = guard(cf.updateGeometry, None, tr, fast)
+            if not ok:
+                c.fails.append(exc_failure(route, e))
+                continue
+            c.xyz(route, np.array([cf.xl, cf.yl, cf.zl]).T)
+            c.angles(route, cf.tth, cf.eta)
+            c.ds(route, cf.ds)
+            c.g(route, np.array([cf.gx, cf.gy, cf.gz]).T)
     # ---- (iv) numba copy (no omegasign: compared on the omega it is given; xpos folded into distance)
     if sc.dtype.kind == "i":
         if rec is not None:
